@@ -12,7 +12,29 @@ import (
 type vfile struct {
 	content Str
 	pos     int
+	path    string
 }
+
+// Virtual clock: time.Now is a 64-bit nanosecond count (a term, so harnesses can advance it by
+// symbolic amounts with symAdvanceClock); a time.Time produced here has wall = 0 and carries the
+// count in ext; Since/Sub/After/Before/Equal are decided on that count. A file's modification
+// time is the clock value at the moment it was last written.
+const vclockStart = 1_000_000_000_000_000_000
+
+func (m *Machine) now() *Term {
+	if m.vclock == nil {
+		m.vclock = m.T.Const(64, vclockStart)
+	}
+	return m.vclock
+}
+
+func (m *Machine) mkTime(ns *Term) value {
+	t := m.zero(m.Prog.ImportedPackage("time").Type("Time").Type()).(structure)
+	t[1] = ns
+	return t
+}
+
+func timeNS(v value) *Term { return v.(structure)[1].(*Term) }
 
 var opaqueFileInfo = types.NewNamed(types.NewTypeName(token.NoPos, nil, "symgo.fileInfo", nil), types.NewStruct(nil, nil), nil)
 
@@ -31,17 +53,24 @@ func (m *Machine) vfsSet(path Str, content Str) {
 	if m.vfiles == nil {
 		m.vfiles = map[string]Str{}
 	}
+	if m.vmtime == nil {
+		m.vmtime = map[string]*Term{}
+	}
 	old, had := m.vfiles[path.s]
+	oldT := m.vmtime[path.s]
 	if m.journaling {
 		m.journal = append(m.journal, undo{f: func() {
 			if had {
 				m.vfiles[path.s] = old
+				m.vmtime[path.s] = oldT
 			} else {
 				delete(m.vfiles, path.s)
+				delete(m.vmtime, path.s)
 			}
 		}})
 	}
 	m.vfiles[path.s] = content
+	m.vmtime[path.s] = m.now()
 }
 
 func (m *Machine) notExist(fr *frame, path string) iface {
@@ -74,7 +103,7 @@ func registerVFS(m *Machine) {
 		if !ok {
 			return tuple{(*value)(nil), m.notExist(fr, a[0].(Str).s)}
 		}
-		var v value = opaque{"vfile", &vfile{content: c}}
+		var v value = opaque{"vfile", &vfile{content: c, path: a[0].(Str).s}}
 		return tuple{&v, iface{}}
 	}
 	in["(*os.File).Read"] = func(m *Machine, fr *frame, a []value) value {
@@ -100,24 +129,99 @@ func registerVFS(m *Machine) {
 	}
 	in["(*os.File).Close"] = func(m *Machine, fr *frame, a []value) value { return iface{} }
 	in["(*os.File).Stat"] = func(m *Machine, fr *frame, a []value) value {
-		return tuple{iface{t: opaqueFileInfo, v: opaque{"fileinfo", nil}}, iface{}}
+		f := (*a[0].(*value)).(opaque).data.(*vfile)
+		return tuple{iface{t: opaqueFileInfo, v: opaque{"fileinfo", f.path}}, iface{}}
 	}
 	in["os.Stat"] = func(m *Machine, fr *frame, a []value) value {
 		if _, ok := m.vfsGet(a[0].(Str)); !ok {
 			return tuple{iface{}, m.notExist(fr, a[0].(Str).s)}
 		}
-		return tuple{iface{t: opaqueFileInfo, v: opaque{"fileinfo", nil}}, iface{}}
+		return tuple{iface{t: opaqueFileInfo, v: opaque{"fileinfo", a[0].(Str).s}}, iface{}}
 	}
-	zeroTime := func(m *Machine) value {
-		return m.zero(m.Prog.ImportedPackage("time").Type("Time").Type())
+	in["opaque:fileinfo.ModTime"] = func(m *Machine, fr *frame, a []value) value {
+		path, _ := a[0].(opaque).data.(string)
+		if t, ok := m.vmtime[path]; ok {
+			return m.mkTime(t)
+		}
+		return m.mkTime(m.T.Const(64, vclockStart))
 	}
-	in["opaque:fileinfo.ModTime"] = func(m *Machine, fr *frame, a []value) value { return zeroTime(m) }
 	in["opaque:fileinfo.Size"] = func(m *Machine, fr *frame, a []value) value { return m.T.Const(64, 0) }
 	in["opaque:fileinfo.IsDir"] = func(m *Machine, fr *frame, a []value) value { return m.T.False }
-	in["time.Now"] = func(m *Machine, fr *frame, a []value) value { return zeroTime(m) }
-	in["time.Since"] = func(m *Machine, fr *frame, a []value) value { return m.T.Const(64, 0) }
+	in["time.Now"] = func(m *Machine, fr *frame, a []value) value { return m.mkTime(m.now()) }
+	in["time.Since"] = func(m *Machine, fr *frame, a []value) value { return m.T.Bin(OpSub, m.now(), timeNS(a[0])) }
+	in["(time.Time).Sub"] = func(m *Machine, fr *frame, a []value) value { return m.T.Bin(OpSub, timeNS(a[0]), timeNS(a[1])) }
+	in["(time.Time).After"] = func(m *Machine, fr *frame, a []value) value { return m.T.Bin(OpSlt, timeNS(a[1]), timeNS(a[0])) }
+	in["(time.Time).Before"] = func(m *Machine, fr *frame, a []value) value { return m.T.Bin(OpSlt, timeNS(a[0]), timeNS(a[1])) }
+	in["(time.Time).Equal"] = func(m *Machine, fr *frame, a []value) value { return m.T.Eq(timeNS(a[0]), timeNS(a[1])) }
+	in["sym:symAdvanceClock"] = func(m *Machine, fr *frame, a []value) value {
+		old := m.now()
+		if m.journaling {
+			m.journal = append(m.journal, undo{f: func() { m.vclock = old }})
+		}
+		m.vclock = m.T.Bin(OpAdd, old, a[0].(*Term))
+		return nil
+	}
+	in["sym:symRemoveFile"] = func(m *Machine, fr *frame, a []value) value {
+		p := a[0].(Str)
+		if !p.Concrete() {
+			panic(unsupported("virtual file system: symbolic path"))
+		}
+		oldC, hadC := m.vfiles[p.s]
+		oldT := m.vmtime[p.s]
+		oldL, hadL := m.vlinks[p.s]
+		if m.journaling {
+			m.journal = append(m.journal, undo{f: func() {
+				if hadC {
+					m.vfiles[p.s] = oldC
+					m.vmtime[p.s] = oldT
+				}
+				if hadL {
+					m.vlinks[p.s] = oldL
+				}
+			}})
+		}
+		delete(m.vfiles, p.s)
+		delete(m.vmtime, p.s)
+		delete(m.vlinks, p.s)
+		return nil
+	}
+	in["sym:symSetSymlink"] = func(m *Machine, fr *frame, a []value) value {
+		from, to := a[0].(Str), a[1].(Str)
+		if !from.Concrete() || !to.Concrete() {
+			panic(unsupported("virtual file system: symbolic symlink path"))
+		}
+		if m.vlinks == nil {
+			m.vlinks = map[string]string{}
+		}
+		old, had := m.vlinks[from.s]
+		if m.journaling {
+			m.journal = append(m.journal, undo{f: func() {
+				if had {
+					m.vlinks[from.s] = old
+				} else {
+					delete(m.vlinks, from.s)
+				}
+			}})
+		}
+		m.vlinks[from.s] = to.s
+		return nil
+	}
 	in["os.TempDir"] = func(m *Machine, fr *frame, a []value) value { return conc("/tmp") }
-	in["path/filepath.EvalSymlinks"] = func(m *Machine, fr *frame, a []value) value { return tuple{a[0], iface{}} }
+	// file-level symbolic links registered with symSetSymlink are followed (up to 8 levels);
+	// links on directory components are not modelled
+	in["path/filepath.EvalSymlinks"] = func(m *Machine, fr *frame, a []value) value {
+		p := a[0].(Str)
+		if p.Concrete() {
+			for i := 0; i < 8; i++ {
+				to, ok := m.vlinks[p.s]
+				if !ok {
+					break
+				}
+				p = conc(to)
+			}
+		}
+		return tuple{p, iface{}}
+	}
 	in["path/filepath.Abs"] = func(m *Machine, fr *frame, a []value) value {
 		p := a[0].(Str)
 		if p.Concrete() && len(p.s) > 0 && p.s[0] == '/' {
